@@ -1,5 +1,6 @@
 import PcbV.Lemmas.Paint
 import PcbV.Lemmas.PaintView
+import PcbV.Lemmas.PaintTerm
 /-
   C32 — PAINT fills exactly the enclosed region.
 
@@ -120,7 +121,8 @@ theorem check_scanline_fuel_sufficient (B : Bounds) (F : Fill) (g : Grid) (b : N
 /-! ### completeness -/
 
 /-- The full completeness statement: if the region contains no pixel that already shows the fill attribute,
-    the loop terminates within an explicit fuel bound and every region pixel is filled. -/
+    the loop terminates within an explicit fuel bound and every region pixel is filled.
+    Proved below as `paint_complete`. -/
 def PaintComplete : Prop :=
   ∀ (B : Bounds) (fill b : Nat) (g : Grid) (sx sy : Int),
     (∀ x y, Region B g b sx sy x y → g x y ≠ fill) →
@@ -128,16 +130,24 @@ def PaintComplete : Prop :=
       (paint B fill b fuel g sx sy).finished = true ∧
       ∀ x y, Region B g b sx sy x y → (paint B fill b fuel g sx sy).grid x y = fill
 
-/-- **paint_complete (partial).**  If the region contains no pixel already in the fill attribute, then
-    whenever the loop has run to completion (the stack is empty when the fuel is checked), every pixel of the
-    region shows the fill attribute — for every region shape (coverage invariant of the scanline algorithm:
-    every region neighbour of a filled region pixel is filled or lies in a stacked interval, and the row
-    behind a directed interval is filled over that interval).
-    MISSING for `PaintComplete`: the termination measure, i.e. that `finished = true` holds for every fuel
-    above the explicit bound (each pushed interval contains an unfilled pixel when pushed, but intervals
-    may be fully overpainted before they are popped, so the number of iterations is not simply the number of
-    region pixels).  The check compares the iteration count of every generated case (thorough: all 2^16 4x4
-    bitmaps x all non-border seeds) with that bound; largest observed ratio 0.064. -/
+/-- **Termination.**  For EVERY picture (pre-filled pixels or not), every seed and every pair of attributes the
+    main loop of a solid PAINT runs empty within the explicit fuel bound `2*W*H*(W+2) + 1` (`W`, `H` the size of
+    the viewport).  Measure: `2*K*U + L + (K if the top of the stack contains no unfilled pixel)`, with `U` the
+    number of pixels inside the bounds not showing the fill attribute, `L` the stack length and `K = W+1` the
+    largest number of intervals one iteration pushes: an interval is pushed only if it contains an unfilled
+    pixel, the write of that iteration is in another row, so after an iteration that pushed something the top
+    is live; popping a live interval fills at least one new pixel; writes never un-fill a pixel. -/
+theorem paint_terminates (B : Bounds) (fill b : Nat) (g : Grid) (sx sy : Int) (fuel : Nat)
+    (h : fuel ≥ 2 * ((B.x1 - B.x0 + 1) * (B.y1 - B.y0 + 1) * (B.x1 - B.x0 + 3)).toNat + 1) :
+    (paint B fill b fuel g sx sy).finished = true :=
+  floodFill_finishes B fill b g sx sy fuel h
+
+/-- **paint_complete (conditional form, kept from the first delivery).**  If the region contains no pixel
+    already in the fill attribute, then whenever the loop has run to completion every pixel of the region shows
+    the fill attribute — for every region shape (coverage invariant of the scanline algorithm: every region
+    neighbour of a filled region pixel is filled or lies in a stacked interval, and the row behind a directed
+    interval is filled over that interval).  The hypothesis `hfin` is discharged by `paint_terminates`; the
+    full statement is `paint_complete` below. -/
 theorem paint_complete_partial (B : Bounds) (fill b fuel : Nat) (g : Grid) (sx sy : Int)
     (hpre : ∀ x y, Region B g b sx sy x y → g x y ≠ fill)
     (hfin : (paint B fill b fuel g sx sy).finished = true) :
@@ -177,6 +187,27 @@ theorem paint_complete_partial (B : Bounds) (fill b fuel : Nat) (g : Grid) (sx s
       subst he
       exact absurd rfl hd
   exact loop_complete fuel g _ hC hfin x y hR
+
+/-- **paint_complete.**  The full completeness statement `PaintComplete`: when the region contains no pixel
+    already in the fill attribute, then for every fuel above the explicit bound the loop has terminated and
+    every pixel of the region shows the fill attribute. -/
+theorem paint_complete : PaintComplete := by
+  intro B fill b g sx sy hpre fuel hfuel
+  have hfin := paint_terminates B fill b g sx sy fuel hfuel
+  exact ⟨hfin, paint_complete_partial B fill b fuel g sx sy hpre hfin⟩
+
+/-- **PAINT fills exactly the enclosed region**: with enough fuel and no pre-filled pixel in the region, the
+    resulting picture is "region := fill attribute, everything else unchanged". -/
+theorem paint_exact (B : Bounds) (fill b : Nat) (g : Grid) (sx sy : Int)
+    (hpre : ∀ x y, Region B g b sx sy x y → g x y ≠ fill) (fuel : Nat)
+    (hfuel : fuel ≥ 2 * ((B.x1 - B.x0 + 1) * (B.y1 - B.y0 + 1) * (B.x1 - B.x0 + 3)).toNat + 1) (x y : Int) :
+    (Region B g b sx sy x y → (paint B fill b fuel g sx sy).grid x y = fill) ∧
+    (¬ Region B g b sx sy x y → (paint B fill b fuel g sx sy).grid x y = g x y) := by
+  refine ⟨(paint_complete B fill b g sx sy hpre fuel hfuel).2 x y, ?_⟩
+  intro hn
+  by_cases hc : (paint B fill b fuel g sx sy).grid x y = g x y
+  · exact hc
+  · exact absurd (paint_sound B fill b fuel g sx sy x y hc).1 hn
 
 /-- corollary: on completion the picture is exactly "region := fill, everything else unchanged" -/
 theorem paint_exact_on_completion (B : Bounds) (fill b fuel : Nat) (g : Grid) (sx sy : Int)
@@ -281,6 +312,22 @@ example : Region demoB demo 3 0 0 1 0 :=
     (Or.inl ⟨rfl, Or.inl rfl⟩) (by simp [Bounds.has, demoB]) (by decide)
 /-- seed on the border: nothing happens -/
 example : (paint demoB 1 3 100 demo 2 0).ops = [] := by decide
+/-- the fuel bound of `paint_terminates` for this 5x3 viewport is 2*5*3*7+1 = 211 -/
+example : (paint demoB 1 3 211 demo 0 0).finished = true :=
+  paint_terminates demoB 1 3 demo 0 0 211 (by decide)
+example : (paint demoB 1 3 211 demo 0 0).grid 4 2 = 1 :=
+  (paint_complete demoB 1 3 demo 0 0 (by intro x y _; unfold demo; split <;> omega) 211 (by decide)).2 4 2
+    (by
+      -- (4,2) is reached from (0,0): along row 0 to x=1, down to row 1, along row 1 to x=4, down to row 2
+      have s0 : Region demoB demo 3 0 0 0 0 := Region.seed (by simp [Bounds.has, demoB]) (by decide)
+      have st : ∀ {x y x' y'}, Region demoB demo 3 0 0 x y → Adj x y x' y' → demoB.has x' y' → demo x' y' ≠ 3 →
+          Region demoB demo 3 0 0 x' y' := fun h a hb hn => Region.step h a hb hn
+      have r01 := st s0 (x' := 0) (y' := 1) (Or.inr ⟨rfl, Or.inl rfl⟩) (by simp [Bounds.has, demoB]) (by decide)
+      have r11 := st r01 (x' := 1) (y' := 1) (Or.inl ⟨rfl, Or.inl rfl⟩) (by simp [Bounds.has, demoB]) (by decide)
+      have r21 := st r11 (x' := 2) (y' := 1) (Or.inl ⟨rfl, Or.inl rfl⟩) (by simp [Bounds.has, demoB]) (by decide)
+      have r31 := st r21 (x' := 3) (y' := 1) (Or.inl ⟨rfl, Or.inl rfl⟩) (by simp [Bounds.has, demoB]) (by decide)
+      have r41 := st r31 (x' := 4) (y' := 1) (Or.inl ⟨rfl, Or.inl rfl⟩) (by simp [Bounds.has, demoB]) (by decide)
+      exact st r41 (x' := 4) (y' := 2) (Or.inr ⟨rfl, Or.inl rfl⟩) (by simp [Bounds.has, demoB]) (by decide))
 /-- with too little fuel the loop is cut short (`finished = false`), soundness still applies -/
 example : (paint demoB 1 3 2 demo 0 0).finished = false := by decide
 /-- through a relative viewport VIEW (2,1)-(6,3) on a 10x6 page: the cell (6,3) = viewport pixel (4,2) is filled,
